@@ -559,6 +559,9 @@ fn register_layout(hname: &str, h: &H) {
                         st.mm_epoch_addr = loc.addr;
                     }
                 }
+                "pos" | "tag" => {
+                    st.post_addrs.insert(loc.addr);
+                }
                 "signal" => st.signal_addr = loc.addr,
                 "gptr" => st.gptr_addr = loc.addr,
                 _ => {}
@@ -622,6 +625,7 @@ pub fn run_opt(
         st.tokens.clear();
         st.leaving.clear();
         st.gptr_addr = 0;
+        st.post_addrs.clear();
         st.mm_trace = scn.mm_trace && !transparent_mm;
         st.mm_lock_addr = 0;
         st.wtf_lock_addr = 0;
